@@ -2107,6 +2107,10 @@ func (e *compiledClassLiteral) emitGetter(putOnStack bool) {
 		if clsBinding != nil {
 			s.deleteBinding(clsBinding)
 			clsBinding = nil
+			// The binding may have been marked for the stash by a reference that compiled to no access
+			// (an assignment to this constant inside a method or initializer). The scope is dropped below,
+			// so it must not count as a stash level any more.
+			s.needStash = false
 		}
 		e.c.p.code[mark0] = jump(1)
 	}
